@@ -61,29 +61,34 @@ func init() {
 			Run: func(P *Program, R *Report) { hashEqualityRule(P, R) }},
 		Rule{ID: "C10.e", Explain: "the event hash input contains Index, ParentHash and E.",
 			Run: func(P *Program, R *Report) {
-				fn := mustFunc(P, R, "C10.e", kHashUsing)
-				if fn == nil {
-					return
-				}
-				var sum *ssa.Call
-				for _, c := range callsIn(fn) {
-					if isCallTo(c, "github.com/multiformats/go-multihash.Sum") {
-						sum = c.(*ssa.Call)
+				// every multihash.Sum in the package (hashUsingAlg today; wherever the code is moved)
+				n := 0
+				for _, fn := range P.AllFuncs {
+					if fn.Pkg == nil || fn.Pkg.Pkg.Name() != "revocation" || fn.Blocks == nil {
+						continue
+					}
+					for _, c := range callsIn(fn) {
+						sum, isCall := c.(*ssa.Call)
+						if !isCall || !isCallTo(c, "github.com/multiformats/go-multihash.Sum") {
+							continue
+						}
+						n++
+						key := FuncKey(fn)
+						R.seen(key)
+						requireDeps(P, R, "C10.e", key, fn, []ssa.Value{sum.Call.Args[0]}, 3, []depReq{
+							{"Index", is("<revocation.Event>.Index"), "position in the chain"},
+							{"ParentHash", is("<revocation.Event>.ParentHash"), "link to the parent"},
+							{"E", is("<revocation.Event>.E"), "revoked value"},
+						})
+						alg := desc(sum.Call.Args[1])
+						r := (&MustPass{P: P, Match: func(a Atom) bool {
+							cc, ok := callAtom(a, Nil, "revocation.checkHashAlg")
+							return ok && desc(cc.Call.Args[0]) == alg
+						}}).MustReach(fn, sum)
+						R.decide("C10.e", key+":alg-whitelisted", "a hash is produced only for a whitelisted algorithm (checkHashAlg of the same algorithm succeeded before multihash.Sum)", r.Holds, r.Path, P.Pos(sum.Pos()))
 					}
 				}
-				if sum == nil {
-					R.bad("C10.e", kHashUsing+":sum", "the hash is multihash.Sum of the event bytes", "no multihash.Sum call", P.Pos(fn.Pos()))
-					return
-				}
-				requireDeps(P, R, "C10.e", kHashUsing, fn, []ssa.Value{sum.Call.Args[0]}, 3, []depReq{
-					{"Index", is("<revocation.Event>.Index"), "position in the chain"},
-					{"ParentHash", is("<revocation.Event>.ParentHash"), "link to the parent"},
-					{"E", is("<revocation.Event>.E"), "revoked value"},
-				})
-				mp(P, R, "C10.e", kHashUsing+":alg-whitelisted", "a hash is produced only for a whitelisted algorithm", fn, AcceptNilErr(1), &MustPass{Match: func(a Atom) bool {
-					_, ok := callAtom(a, Nil, "revocation.checkHashAlg")
-					return ok
-				}})
+				R.decide("C10.e", "revocation:sum-sites", "the event hash is computed by multihash.Sum (>= 1 site)", n >= 1, fmt.Sprintf("%d", n), "")
 			}},
 		Rule{ID: "C10.f", Explain: "Update.Prepend replaces the receiver (`*update = *n`) only after the merged list verified against the signed accumulator; it performs no other store through the receiver.",
 			Run: func(P *Program, R *Report) {
@@ -299,8 +304,14 @@ func hashEqualityRule(P *Program, R *Report) {
 				return false
 			}
 			x, y := desc(c.Call.Args[0]), desc(c.Call.Args[1])
-			ours := "call:" + kHashUsing + "(<revocation.Event>,"
-			return (strings.HasPrefix(x, ours) && strings.HasSuffix(x, "#0") && y == "arg#1") || (strings.HasPrefix(y, ours) && strings.HasSuffix(y, "#0") && x == "arg#1")
+			fresh := func(d string) bool {
+				if !strings.HasSuffix(d, "#0") {
+					return false
+				}
+				return strings.HasPrefix(d, "call:"+kHashUsing+"(<revocation.Event>,") ||
+					strings.HasPrefix(d, "call:github.com/multiformats/go-multihash.Sum(call:revocation.(*Event).hashBytes(<revocation.Event>),")
+			}
+			return (fresh(x) && y == "arg#1") || (fresh(y) && x == "arg#1")
 		}})
 	}
 	if fn := mustFunc(P, R, rule, "revocation.checkHashAlg"); fn != nil {
